@@ -58,6 +58,9 @@ type Parser struct {
 	curToken  token.Token
 	peekToken token.Token
 
+	// unread holds tokens that were pushed back by unreadToken
+	unread []token.Token
+
 	prefixParseFns map[token.TokenType]prefixParseFn
 	infixParseFns  map[token.TokenType]infixParseFn
 
@@ -262,7 +265,22 @@ func (p *Parser) newError(line uint, msg string, args ...any) {
 
 func (p *Parser) nextToken() {
 	p.curToken = p.peekToken
+
+	if n := len(p.unread); n > 0 {
+		p.peekToken = p.unread[n-1]
+		p.unread = p.unread[:n-1]
+		return
+	}
+
 	p.peekToken = p.l.NextToken()
+}
+
+// unreadToken pushes the current token back, so that it becomes
+// the peek token again. The current token becomes an empty HTML token
+func (p *Parser) unreadToken() {
+	p.unread = append(p.unread, p.peekToken)
+	p.peekToken = p.curToken
+	p.curToken = token.Token{Type: token.HTML, Pos: p.curToken.Pos}
 }
 
 func (p *Parser) parseIdentifier() ast.Expression {
@@ -975,6 +993,7 @@ func (p *Parser) parseForStmt() *ast.ForStmt {
 	stmt.Block = p.parseBlockStmt()
 
 	if p.peekTokenIs(token.ELSE) {
+		p.nextToken() // move to "@else"
 		p.nextToken() // skip "@else"
 		stmt.Alternative = p.parseBlockStmt()
 	}
@@ -1017,6 +1036,7 @@ func (p *Parser) parseEachStmt() *ast.EachStmt {
 	stmt.Block = p.parseBlockStmt()
 
 	if p.peekTokenIs(token.ELSE) {
+		p.nextToken() // move to "@else"
 		p.nextToken() // skip "@else"
 		stmt.Alternative = p.parseBlockStmt()
 	}
@@ -1030,6 +1050,14 @@ func (p *Parser) parseEachStmt() *ast.EachStmt {
 
 func (p *Parser) parseBlockStmt() *ast.BlockStmt {
 	stmt := &ast.BlockStmt{Token: p.curToken}
+
+	// The block is empty when it starts with its own terminator. Push the
+	// terminator back, so that the caller finds it in the peek token
+	// exactly like after a block with statements
+	if p.curTokenIs(token.END) || p.curTokenIs(token.ELSE) || p.curTokenIs(token.ELSE_IF) {
+		p.unreadToken()
+		return stmt
+	}
 
 	for !p.curTokenIs(token.END) {
 		// an unterminated block must not be waited on forever
